@@ -1,0 +1,6 @@
+//go:build !verif
+
+package ro
+
+// verifPoint is a no-op unless the library is built with the "verif" build tag (verification hooks).
+func verifPoint(point string, obj any) {}
